@@ -55,6 +55,11 @@ def frame_ranges(rate: Fraction, lo_s: int, hi_s: int, mode: str):
   spans = [(0, math.ceil(660 * rate))]
   for t in range(600, DAY + 1, 600):
     spans.append((max(0, math.floor((t - 3) * rate)), min(hi, math.ceil((t + 3) * rate))))
+  # minute boundaries that are not multiples of ten minutes (where drop-frame labels skip), in every hour of the day
+  for h in range(24):
+    for m in (1, 9, 11, 41, 59):
+      t = h * 3600 + m * 60
+      spans.append((max(0, math.floor((t - 1) * rate)), min(hi, math.ceil((t + 1) * rate))))
   # merge + strided filler between the spans
   spans.sort()
   pos = lo
